@@ -11,9 +11,12 @@ pub struct Slab<T> { v: Vec<T> }
 impl<T> View for Slab<T> { type V = Map<usize, T>; uninterp spec fn view(&self) -> Map<usize, T>; }
 
 impl<T> Slab<T> {
+    // a slab that was never used hands out key 0 first (all constructors of the crate rely on the root having index 0)
+    pub uninterp spec fn fresh(&self) -> bool;
+
     #[verifier::external_body]
     pub fn with_capacity(capacity: usize) -> (r: Slab<T>)
-        ensures r@ == Map::<usize, T>::empty()
+        ensures r@ == Map::<usize, T>::empty(), r.fresh()
     { unimplemented!() }
 
     #[verifier::external_body]
@@ -46,7 +49,7 @@ impl<T> Slab<T> {
 
     #[verifier::external_body]
     pub fn insert(&mut self, val: T) -> (key: usize)
-        ensures !old(self)@.dom().contains(key), final(self)@ == old(self)@.insert(key, val)
+        ensures !old(self)@.dom().contains(key), final(self)@ == old(self)@.insert(key, val), old(self).fresh() ==> key == 0
     { unimplemented!() }
 
     #[verifier::external_body]
